@@ -386,7 +386,10 @@ def shrink(recipe, fails, budget=400):
 # ---------------------------------------------------------------------------------------------
 
 OPS.update({"invert": ops.invert})
-RED_OUT = {"sum": ops.sum, "prod": ops.prod, "amax": ops.amax, "amin": ops.amin, "all": ops.all, "any": ops.any}
+RED_OUT = {"sum": ops.sum, "prod": ops.prod, "amax": ops.amax, "amin": ops.amin, "all": ops.all, "any": ops.any,
+           "mean": ops.mean, "logsumexp": ops.logsumexp,
+           "std": lambda x, axis=None, keepdims=False: ops.std(x, axis, 0, keepdims),
+           "var": lambda x, axis=None, keepdims=False: ops.var(x, axis, 0, keepdims)}
 
 
 def _index_of(ix):
@@ -464,7 +467,8 @@ _EXT_PY = {
     "opstack": lambda r: "ops.stack((" + ", ".join(python_of(p) for p in r[1]) + ",), 0)",
     "opcat": lambda r: "ops.cat((" + ", ".join(python_of(p) for p in r[1]) + ",), 0)",
     "einsum": lambda r: "ops.einsum((" + ", ".join(python_of(p) for p in r[2]) + f",), {r[1]!r})",
-    "red": lambda r: f"ops.{r[1]}({python_of(r[4])}, {r[2]!r}, {r[3]!r})",
+    "red": lambda r: (f"ops.{r[1]}({python_of(r[4])}, {r[2]!r}, 0, {r[3]!r})" if r[1] in ("std", "var")
+                      else f"ops.{r[1]}({python_of(r[4])}, {r[2]!r}, {r[3]!r})"),
     "reshape": lambda r: f"({python_of(r[2])}).reshape({tuple(r[1])!r})",
     "getslice": lambda r: f"({python_of(r[2])})[{_py_index(r[1])}]",
     "getitem": lambda r: f"({python_of(r[1])})[{python_of(r[2])}]",
